@@ -8,6 +8,9 @@ CHECKS = {
              note='Trusted: go/ssa construction, the SSA->SMT interpreter (validated on every run against the native build on the repo test inputs and seeded random inputs), z3. The oracle is an independent SMT formulation of the dpkg algorithm (checks/specs.py).',
              ref='DESIGN.md 2/C01'),
 }
+CHECKS['C03'] = dict(text='Every ASCII string up to the stated length is pushed symbolically through the real Parse, String, MarshalControl/UnmarshalControl and MarshalText/UnmarshalText (go/ssa, path enumeration pruned by z3): on every accepted path the three renderings must re-parse to the identical value; grammar templates with symbolic leaves must be accepted with exactly their parts; each near-miss class of the statement, given as a template with symbolic witnesses, must be rejected by Parse, UnmarshalControl and UnmarshalText.',
+             note='Trusted: go/ssa, the interpreter and its contract models (fmt.Sprintf %d/%s, strings.Index family, unicode.IsSpace/IsDigit tables, UTF-8 decoding case split), z3. fmt.Errorf is an opaque non-nil error.',
+             ref='DESIGN.md 2/C03')
 NA = {}
 props = [json.loads(l) for l in open(os.path.join(V, 'properties.jsonl'))]
 checks = []
